@@ -173,10 +173,31 @@ def must_accept(cfg):
     return "multiplexer-balanceable-within-the-sharing-limit"
 
 
+def documented_layout(cfg):
+    """the ranges the DOCUMENTED allocation rule gives this layout (C02's arithmetic: size rounded up to a multiple of the effective
+    alignment - the last addresses of a padded register are padding chunks; implicit placement at the next aligned address)"""
+    au = lambda v, a: -(-v // (1 << a)) * (1 << a)
+    out, cursor = [], 0
+    for (w, acc, addr, al) in cfg["regs"]:
+        eff = max(cfg["align"], al or 0)
+        span = au(max((w + cfg["dw"] - 1) // cfg["dw"], 1), eff)
+        start = addr if addr is not None else au(cursor, eff)
+        out.append((start, start + span)); cursor = start + span
+    return sorted(out)
+
+
 def netlist(ctx, cfg):
     mux = build(cfg)
     # the register list comes from the map (what software is told), not from the construction order above
     regs = csrtarget.regs_from_map(mux.bus.memory_map)
+    # ... and the map pads registers as documented (C04/C05 quantify over "registers padded by alignment, where the last address is a
+    # padding chunk": if the map stopped padding, every clause below would still hold on the layout it reports)
+    got = sorted((R["start"], R["stop"]) for R in regs)
+    want = documented_layout(cfg)
+    ctx.results.append({"name": f"padding_as_documented@{ctx.key}", "clause": "padding_as_documented", "status": "discharged" if got == want else "failed", "time": 0.0,
+                        "replay": {"confirmed": True, "how": "native: ranges reported by the memory map vs the documented allocation rule",
+                                   "detail": f"memory map reports {got}, the documented rule gives {want}"},
+                        "cfg": cfg, "known_key": "padding_as_documented", "solver": "native evaluation"})
     tie = [mux.bus.r_data]
     for R in regs:
         e = R["elem"]
